@@ -102,7 +102,9 @@ def oracle(policy, actions, recs, snap):
             if oc == 'n' and rp != ('ok', None):
                 bad.append(('c10:result-prop', f'.result is {rp} for a member that returned None'))
     # policy: evaluated step by step while the joiner is never cancelled
-    if not any(a[0] == 'K' for a in actions):
+    # (nor swept from outside by another task's cancel_remaining(): which cancellations are the
+    # group's own is then not observable)
+    if not any(a[0] in ('K', 'R') for a in actions):
         body_raised = any(a[0] == 'E' and a[1] for a in actions)
         daemon = snap['daemon']
         ext = set()
